@@ -34,7 +34,9 @@ listed flow is stored, the focus is a listed flow, notifications match the chang
 from __future__ import annotations
 
 import copy
+import gc
 import re
+import weakref
 
 from mitmproxy import dns as mdns
 from mitmproxy import flow as mflow
@@ -61,7 +63,11 @@ RULE = ("seeded histories of 12-110 operations by two interleaved actors (seeded
         "cached sort key / filter verdict is out of date) and user (filter from a pool of 22 expressions, 4 orders, "
         "reverse, marked-only toggle, clear, clear-unmarked, remove, duplicate, focus go/next/prev/set/index, "
         "focus-follow, settings); a per-run profile switches marked-only mode, key mutation, filters and the set of "
-        "orders on/off so that every feature also runs without the others; non-trivial = both actors acted, the view "
+        "orders on/off so that every feature also runs without the others; in 40% of the runs subscribers of the "
+        "view's signals come and go between operations (short-lived widgets on a subset of the six signals and further "
+        "long-lived notification mirrors are connected at seeded points, before and after each other; widgets - now "
+        "and then a mirror - are dropped: last strong reference deleted, collection verified through a weak "
+        "reference) and every mirror alive over an operation is owed the notifications of that operation; non-trivial = both actors acted, the view "
         "held >= 2 flows at some point and at least one update and one user view-change happened; distinct = distinct "
         "digests of the abstract log (op, listed labels, focus, signals)")
 COMPONENTS_REAL = ["addons.view.View", "addons.view.Focus", "addons.view.Settings", "addons.view._OrderKey*",
@@ -78,6 +84,9 @@ ASSUMPTIONS = ["a flow mutation is announced by the corresponding update hook ei
                "signals are checked against a membership replica of a subscriber: add/remove must be applicable, "
                "refresh reloads, the replica must equal the listed flows when the operation returns; a pure re-order "
                "is not required to be signalled",
+               "a subscriber whose object has been deleted and collected is owed nothing; every other subscriber that "
+               "was connected when an operation started is owed the notifications of that operation, whichever "
+               "subscribers were connected before or after it and have gone away since",
                "exceptions documented by the API (focus setter on a hidden flow, index out of bounds, settings of a "
                "flow that is not stored) are not violations"]
 EXPECTED_PROBES = ["add_in_marked_only", "update_in_marked_only", "order_switch_back_after_key_change",
@@ -89,7 +98,13 @@ EXPECTED_PROBES = ["add_in_marked_only", "update_in_marked_only", "order_switch_
                    "mutated_without_update", "mutate_key_drift_in_view", "deliver_after_mutate", "remove_while_stale",
                    "clear_while_stale", "clear_unmarked_while_stale", "refilter_while_stale", "set_order_while_stale",
                    "set_reversed_while_stale", "duplicate_while_stale", "update_other_while_stale",
-                   "add_stored_id_while_stale", "focus_on_stale", "stale_filter_verdict", "stale_position_owed"]
+                   "add_stored_id_while_stale", "focus_on_stale", "stale_filter_verdict", "stale_position_owed",
+                   # subscribers of the view's signals come and go
+                   "widget_connected", "late_mirror_connected", "late_mirror_connected_after_live_widget",
+                   "late_mirror_notified", "listener_dropped", "listener_dropped_before_live_mirror",
+                   "listener_dropped_right_before_live_mirror", "listener_dropped_last_connected",
+                   "first_add_after_listener_drop", "first_remove_after_listener_drop",
+                   "first_update_after_listener_drop", "first_refresh_after_listener_drop"]
 
 ORDERS = ["time", "method", "url", "size"]
 TYPES = ["http", "http", "http", "tcp", "udp", "dns", "dns"]
@@ -571,12 +586,122 @@ def generate(rng, tier):
             else:
                 ops.append({"actor": "user", "op": "setting", "flow": pick(r, prefer_stored=r.random() < 0.7),
                             "name": r.choice(["k1", "k2"]), "value": r.choice(["a", "b"])})
+    # subscribers of the view's signals come and go (own site, ops are inserted afterwards: everything above keeps
+    # its shape): short-lived "widgets" and further long-lived notification mirrors are connected at seeded points of
+    # the history, widgets (now and then a mirror) go away again between two operations
+    rl = rng.at("c43-listeners")
+    profile["listener_churn"] = rl.random() < 0.4
+    if profile["listener_churn"]:
+        ops = _insert_listener_ops(rl, ops)
     return {"family": "view", "profile": profile, "ops": ops}
+
+
+VIEW_SIGNALS = ["view_add", "view_remove", "view_update", "view_refresh"]
+ALL_SIGNALS = VIEW_SIGNALS + ["store_remove", "store_refresh"]
+
+
+def _insert_listener_ops(r, ops):
+    n = len(ops)
+    ins = []  # (position in the original history, sequence number, op)
+    uid = 0
+    for _ in range(r.choice([1, 1, 2, 2, 3])):
+        p = r.randrange(0, n + 1)
+        if r.random() < 0.3:
+            p = 0  # subscribers that connect right after start-up, before any traffic
+        kinds = [("widget" if r.random() < 0.65 else "mirror") for _ in range(r.choice([1, 2, 2, 3]))]
+        if r.random() < 0.7 and kinds[-1] != "mirror":
+            kinds.append("mirror")  # the long-lived consumer connects after the short-lived ones
+        for k in kinds:
+            if k == "widget":
+                x = r.random()
+                sigs = (VIEW_SIGNALS if x < 0.45 else ALL_SIGNALS if x < 0.65
+                        else sorted(r.sample(ALL_SIGNALS, r.choice([1, 2, 3])), key=ALL_SIGNALS.index))
+                ins.append((p, len(ins), {"actor": "ui", "op": "ui_open", "id": uid, "kind": "widget",
+                                          "signals": list(sigs)}))
+                # it goes away later on (mostly soon: while the consumers connected after it are still there)
+                q = min(n, p + r.choice([0, 1, 2, 3, 5, 8])) if r.random() < 0.6 else r.randrange(p, n + 1)
+                if r.random() < 0.9:
+                    ins.append((q, 10000 + len(ins), {"actor": "ui", "op": "ui_close", "id": uid}))
+            else:
+                ins.append((p, len(ins), {"actor": "ui", "op": "ui_open", "id": uid, "kind": "mirror"}))
+                if r.random() < 0.15:
+                    ins.append((r.randrange(p, n + 1), 10000 + len(ins), {"actor": "ui", "op": "ui_close", "id": uid}))
+            uid += 1
+    ins.sort(key=lambda t: (t[0], t[1]))
+    out = []
+    j = 0
+    for i in range(n + 1):
+        while j < len(ins) and ins[j][0] == i:
+            out.append(ins[j][2])
+            j += 1
+        if i < n:
+            out.append(ops[i])
+    return out
 
 
 # ---------------------------------------------------------------------------
 # executor + oracle
 # ---------------------------------------------------------------------------
+class _Widget:
+    """A short-lived subscriber (a UI element that is closed later): counts what it is told, nothing else."""
+
+    def __init__(self, seq):
+        self.seq = seq
+        self.kind = "widget"
+        self.signals = []
+        self.seen = 0
+
+    def view_add(self, flow):
+        self.seen += 1
+
+    def view_remove(self, flow, index):
+        self.seen += 1
+
+    def view_update(self, flow):
+        self.seen += 1
+
+    def view_refresh(self):
+        self.seen += 1
+
+    def store_remove(self, flow):
+        self.seen += 1
+
+    def store_refresh(self):
+        self.seen += 1
+
+
+class _LateMirror:
+    """A further long-lived consumer, connected somewhere in the middle of the history: follows the listing through the
+    notifications alone, exactly like the subscriber that is connected from the start."""
+
+    def __init__(self, run, seq):
+        self.run = run
+        self.seq = seq
+        self.kind = "mirror"
+        self.signals = list(ALL_SIGNALS)
+        self.replica = set()
+        self.raw_sigs = []
+        self.sig_problems = []
+
+    def view_add(self, flow):
+        self.run.on_signal("add", flow, None, self)
+
+    def view_remove(self, flow, index):
+        self.run.on_signal("remove", flow, index, self)
+
+    def view_update(self, flow):
+        self.run.on_signal("update", flow, None, self)
+
+    def view_refresh(self):
+        self.run.on_signal("refresh", None, None, self)
+
+    def store_remove(self, flow):
+        pass
+
+    def store_refresh(self):
+        pass
+
+
 class _Recorder:
     """Stands in for a UI: subscribes to every signal of the view (the signals only keep weak references)."""
 
@@ -644,6 +769,12 @@ class _Run:
         self.acted = set()
         self.n_updates = 0
         self.n_user_changes = 0
+        # subscribers that come and go (the signals keep weak references: these are the only strong ones)
+        self.ui = {}            # id -> _Widget | _LateMirror
+        self.conn_seq = 0
+        self.harness_error = None
+        self.late_notified = False
+        self.drop_pending = {}  # signal kind -> a subscriber of it went away while a later-connected mirror is alive
 
     # -- helpers ---------------------------------------------------------------------------------
     def probe(self, name):
@@ -705,27 +836,87 @@ class _Run:
         self.fseen.pop(label, None)
         self.kseen.pop(label, None)
 
-    def on_signal(self, kind, flow, index=None):
+    def on_signal(self, kind, flow, index=None, st=None):
         # flows are tracked by object id here: duplicates get their label only when the operation has returned
-        self.raw_sigs.append((kind, flow, index))
+        # st: the subscriber whose picture is advanced (None: the one connected from the start, kept on the run itself)
+        if st is None:
+            st = self
+            if self.drop_pending and kind in self.drop_pending:
+                # first notification of this kind since a subscriber connected before a live mirror went away
+                del self.drop_pending[kind]
+                self.probe("first_%s_after_listener_drop" % kind)
+        else:
+            self.late_notified = True
+        st.raw_sigs.append((kind, flow, index))
         fid = flow.id if flow is not None else None
         if kind == "add":
-            if fid in self.replica:
-                self.sig_problems.append(("add_for_listed_flow", "sig_view_add for %s which a subscriber already lists", flow))
-            self.replica.add(fid)
+            if fid in st.replica:
+                st.sig_problems.append(("add_for_listed_flow", "sig_view_add for %s which a subscriber already lists", flow))
+            st.replica.add(fid)
             if flow not in self.view:
-                self.sig_problems.append(("add_before_listed", "sig_view_add for %s but the view does not contain it", flow))
+                st.sig_problems.append(("add_before_listed", "sig_view_add for %s but the view does not contain it", flow))
         elif kind == "remove":
-            if fid not in self.replica:
-                self.sig_problems.append(("remove_for_unlisted_flow", "sig_view_remove for %s which a subscriber does not list", flow))
-            self.replica.discard(fid)
+            if fid not in st.replica:
+                st.sig_problems.append(("remove_for_unlisted_flow", "sig_view_remove for %s which a subscriber does not list", flow))
+            st.replica.discard(fid)
             if flow in self.view:
-                self.sig_problems.append(("remove_but_listed", "sig_view_remove for %s but the view still contains it", flow))
+                st.sig_problems.append(("remove_but_listed", "sig_view_remove for %s but the view still contains it", flow))
         elif kind == "update":
-            if fid not in self.replica:
-                self.sig_problems.append(("update_for_unlisted_flow", "sig_view_update for %s which a subscriber does not list", flow))
+            if fid not in st.replica:
+                st.sig_problems.append(("update_for_unlisted_flow", "sig_view_update for %s which a subscriber does not list", flow))
         elif kind == "refresh":
-            self.replica = {f.id for f in self.view}
+            st.replica = {f.id for f in self.view}
+
+    def ui_open(self, op):
+        k = op.get("id")
+        if k in self.ui:
+            return True
+        v = self.view
+        self.conn_seq += 1
+        if op.get("kind") == "mirror":
+            o = _LateMirror(self, self.conn_seq)
+            self.probe("late_mirror_connected")
+            if any(w.kind == "widget" for w in self.ui.values()):
+                self.probe("late_mirror_connected_after_live_widget")
+        else:
+            o = _Widget(self.conn_seq)
+            o.signals = [s for s in op.get("signals", []) if s in ALL_SIGNALS]
+            if not o.signals:
+                return True
+            self.probe("widget_connected")
+        for s in o.signals:
+            getattr(v, "sig_" + s).connect(getattr(o, s))
+        self.ui[k] = o
+        return False
+
+    def ui_close(self, op):
+        """The component behind a subscriber goes away: its last strong reference is deleted and it is collected
+        (checked through a weak reference: nothing here depends on when a garbage collector happens to run)."""
+        k = op.get("id")
+        if k not in self.ui:
+            return True
+        o = self.ui.pop(k)
+        later = [m for m in self.ui.values() if m.kind == "mirror" and m.seq > o.seq]
+        kind, seq, sigs = o.kind, o.seq, list(o.signals)
+        ref = weakref.ref(o)
+        del o
+        if ref() is not None:
+            gc.collect()
+        if ref() is not None:
+            self.harness_error = "C43 harness: subscriber %r is still referenced after it was dropped" % k
+            return True
+        self.probe("listener_dropped")
+        self.faults["listener_dropped"] = self.faults.get("listener_dropped", 0) + 1
+        if later:
+            self.probe("listener_dropped_before_live_mirror")
+            if any(m.seq == seq + 1 for m in later):
+                self.probe("listener_dropped_right_before_live_mirror")
+            for s in sigs:
+                if s.startswith("view_"):
+                    self.drop_pending[s[5:]] = True
+        elif kind == "widget":
+            self.probe("listener_dropped_last_connected")
+        return False
 
     # -- one operation ---------------------------------------------------------------------------
     def step(self, i, op):
@@ -737,6 +928,19 @@ class _Run:
         self.replica = {f.id for f in before_flows}
         self.raw_sigs = []
         self.sig_problems = []
+        self.late_notified = False
+        late = []
+        if self.ui:
+            closing = op.get("id") if name == "ui_close" else None
+            for k in sorted(self.ui):
+                m = self.ui[k]
+                if m.kind == "mirror" and k != closing:  # (no reference to a subscriber that goes away now is kept)
+                    # like the first subscriber: its picture is the listing when the operation starts
+                    m.replica = set(self.replica)
+                    m.raw_sigs = []
+                    m.sig_problems = []
+                    late.append((k, m.seq))  # no strong reference from this frame (frames may outlive the step)
+            m = None
         exp_before = self.expected_members()
         if self.kseen or self.fseen:
             self.stale_probes(name, op, exp_before)
@@ -747,7 +951,9 @@ class _Run:
         try:
             skipped = self.do(op, targets, exp_before)
         except Exception as e:  # noqa: BLE001 - anything escaping a view operation is recorded
-            exc = e
+            # without its traceback: that refers to this frame and would keep everything in it (and every subscriber
+            # the exception passed through) alive in a reference cycle
+            exc = e.with_traceback(None)
         if skipped:
             self.log.append((i, name, "skipped"))
             return
@@ -905,6 +1111,21 @@ class _Run:
                 out.append({"class": "signals", "key": {"what": "update_for_untouched_flow", "via": via},
                             "msg": "%s: sig_view_update for %s which was not updated" % (ctx, l)})
                 break
+        # 6b. the same for every further long-lived subscriber that was connected when the operation started and still
+        #     is (whatever other subscribers came and went meanwhile); only when the first subscriber had no complaint
+        if late:
+            if self.late_notified:
+                self.probe("late_mirror_notified")
+            if exc is None and not any(x["class"] == "signals" for x in out):
+                for k, seq in late:
+                    m = self.ui.get(k)
+                    bad = None
+                    if m is not None and m.seq == seq:
+                        bad = self.late_mirror_check(m, before, after, targets, via, ctx)
+                    m = None
+                    if bad:
+                        out.append(bad)
+                        break
 
         # probes on what this step exercised
         fl = self.lab(foc)
@@ -917,6 +1138,32 @@ class _Run:
         self.log.append((i, name, type(exc).__name__ if exc else "", tuple(after), fl, tuple(self.sigs)))
         self.states.add("%s|%d|%d|%s|%d|%d" % (self.order, self.reversed, self.marked_only, self.filter,
                                                min(len(after), 3), len(self.store) - len(after) > 0))
+
+    def late_mirror_check(self, m, before, after, targets, via, ctx):
+        """Clause 6 for a subscriber connected later in the history (its own picture, same demands)."""
+        sigs = [(k, self.lab(f)) if idx is None else (k, self.lab(f), idx) for k, f, idx in m.raw_sigs]
+        who = "connected_later"
+        for what, msg, f in m.sig_problems[:1]:
+            return {"class": "signals", "key": {"what": what, "via": via, "subscriber": who},
+                    "msg": "%s: (subscriber connected later) %s; its signals=%s" % (ctx, msg % self.lab(f), sigs)}
+        replica = {self.by_id.get(x, "?unknown") for x in m.replica}
+        if replica != set(after):
+            lost = sorted(set(after) - replica)
+            ghost = sorted(replica - set(after))
+            return {"class": "signals", "key": {"what": "missing_add" if lost else "missing_remove", "via": via,
+                                                "subscriber": who},
+                    "msg": "%s: listed before=%s after=%s but the signals %s that reached a subscriber connected later "
+                           "(all signals sent: %s) leave it with +%s -%s" % (ctx, before, after, sigs, self.sigs, ghost, lost)}
+        upd = {s[1] for s in sigs if s[0] == "update"}
+        for l in targets:
+            if l in before and l in after and l not in upd:
+                return {"class": "signals", "key": {"what": "missing_update", "via": via, "subscriber": who},
+                        "msg": "%s: %s stayed listed but no sig_view_update reached a subscriber connected later; its "
+                               "signals=%s, all signals sent: %s" % (ctx, l, sigs, self.sigs)}
+        for l in sorted(upd - set(targets)):
+            return {"class": "signals", "key": {"what": "update_for_untouched_flow", "via": via, "subscriber": who},
+                    "msg": "%s: sig_view_update for %s which was not updated" % (ctx, l)}
+        return None
 
     # -- which operation kinds ran while a listed flow's sort key was out of date (coverage only)
     def stale_probes(self, name, op, exp_before):
@@ -946,6 +1193,10 @@ class _Run:
     def do(self, op, targets, exp_before):
         name = op["op"]
         v = self.view
+        if name == "ui_open":
+            return self.ui_open(op)
+        if name == "ui_close":
+            return self.ui_close(op)
         if name == "mutate":
             # a proxy layer changes the flow; the hook that tells the view has not fired yet
             l = op.get("flow")
@@ -1210,6 +1461,8 @@ def execute(sc):
     run = _Run()
     for i, op in enumerate(sc.get("ops", [])):
         run.step(i, op)
+        if run.harness_error:
+            raise RuntimeError(run.harness_error)
         if run.violations:
             break
     nontrivial = (run.acted >= {"traffic", "user"} and run.max_len >= 2 and run.n_updates >= 1
